@@ -36,6 +36,26 @@ transformations:
     type: field_name_mapping
     mapping:
       fieldA: mappedA
+  - id: acond
+    type: add_condition
+    conditions:
+      idx: main
+  - id: pre
+    type: field_name_prefix
+    prefix: "p_"
+  - id: sf
+    type: set_field
+    fields: [x]
+  - id: af
+    type: add_field
+    field: y
+    rule_conditions:
+      - type: logsource
+        product: windows
+postprocessing:
+  - id: showfields
+    type: simple_template
+    template: "{query} | fields={rule.fields}"
 """
 
 
